@@ -2121,6 +2121,44 @@ func (c *Ctx) guardSharesWithUnserialize(fn *ssa.Function, g *ssa.Function, v ss
 	if f == nil || len(producer.Call.Args) == 0 || producer.Call.Args[0] != ssa.Value(fn.Params[0]) || !calls(f) {
 		return false
 	}
+	// (b) again, for the function that works the value out: what it lets a callee put into a map it made (the defaults of
+	// the sub-object the property holds) is built only for an object that is mapped to a struct, and only for fields
+	// that are neither pointers nor interfaces - nothing bounds the nesting of what is built for a map-based object
+	if len(f.Params) > 0 {
+		structMapped := core.MustHold(f, func(cond core.Cond) bool {
+			x, neq, ok := core.NilCmp(cond.V)
+			if !ok || neq != cond.True {
+				return false
+			}
+			ld, ok := x.(*ssa.UnOp)
+			if !ok {
+				return false
+			}
+			fa, ok := ld.X.(*ssa.FieldAddr)
+			return ok && fa.X == ssa.Value(f.Params[0]) && strings.HasSuffix(typeStr(ld.Type()), "reflect.StructField")
+		})
+		for _, b := range f.Blocks {
+			for _, in := range b.Instrs {
+				call, ok := in.(*ssa.Call)
+				if !ok {
+					continue
+				}
+				handsMap := false
+				for _, a := range call.Call.Args {
+					if _, isMake := a.(*ssa.MakeMap); isMake {
+						handsMap = true
+					}
+				}
+				if !handsMap {
+					continue
+				}
+				sc := core.StaticBody(&call.Call)
+				if sc == nil || !c.storesOnlyForValueFields(sc) || !structMapped[b] {
+					return false
+				}
+			}
+		}
+	}
 	// (e)
 	if len(fn.Params) == 0 {
 		return false
